@@ -127,10 +127,6 @@ func mk(prefix, tag string) *etree.Element {
 // BuildSignature computes an enveloped signature for el as it currently stands
 // (attached where it will stay) and returns the ds:Signature element, not inserted.
 func BuildSignature(el *etree.Element, o SigOpts) (*etree.Element, error) {
-	ds := o.DsPrefix
-	if ds == "" {
-		ds = "ds"
-	}
 	canon, err := CanonicalInContext(el, o.C14N, o.PrefixList)
 	if err != nil {
 		return nil, err
@@ -142,6 +138,15 @@ func BuildSignature(el *etree.Element, o SigOpts) (*etree.Element, error) {
 	h := dh.New()
 	h.Write(canon)
 	digest := h.Sum(nil)
+	// the prefix bound to the XML-DSig namespace is the signer's choice ("ds" is a habit, not a rule): unless the
+	// caller fixes it, it follows from the digest -- ds, dsig, sig, or no prefix at all (default namespace)
+	ds := o.DsPrefix
+	switch {
+	case ds == "none":
+		ds = ""
+	case ds == "":
+		ds = []string{"ds", "ds", "dsig", "sig", ""}[int(digest[0])%5]
+	}
 
 	uri := ""
 	if a := el.SelectAttr("ID"); a != nil {
@@ -152,7 +157,11 @@ func BuildSignature(el *etree.Element, o SigOpts) (*etree.Element, error) {
 	}
 
 	sig := mk(ds, "Signature")
-	sig.CreateAttr("xmlns:"+ds, NSDsig)
+	if ds == "" {
+		sig.CreateAttr("xmlns", NSDsig)
+	} else {
+		sig.CreateAttr("xmlns:"+ds, NSDsig)
+	}
 	si := mk(ds, "SignedInfo")
 	sig.AddChild(si)
 	cm := mk(ds, "CanonicalizationMethod")
